@@ -24,7 +24,7 @@
     rlwe.Automorphism             core/rlwe/evaluator_automorphism.go:14-58
     rlwe.PartialTracesSum (InnerSum) core/rlwe/inner_sum.go:152-288
     rlwe.Element.Resize + Add's degree choice  core/rlwe/element.go:160-182, core/rlwe/evaluator.go:168-169
-    ring.DivRoundByLastModulus / NTT  ring/scaling.go:93-126
+    ring.DivRoundByLastModulus / NTT  ring/scaling.go:93-147 (HEAD) and the version before commit 64e1afc
   Core Lean only.
 -/
 namespace Lattigo.Store
@@ -75,7 +75,8 @@ inductive Fn
   | addBig    -- AddScalarBigint(p, s, ·)   args [p, s]
   | mulBig    -- MulScalarBigint(p, s, ·)   args [p, s]
   | addHalf   -- AddScalar(p0[L], pHalf)
-  | negAdd    -- AddScalarLazyThenNegTwoModulusLazy(p0[i], q_i - pHalf)
+  | negAdd    -- AddScalarLazyThenNegTwoModulusLazy(p0[i], q_i - pHalf)   (code before commit 64e1afc)
+  | addC      -- AddScalar(p1[i], (-pHalf)·(-InvQ))                        (code since commit 64e1afc)
   | divStep   -- AddLazyThenMulScalarMontgomery(p0[L], p0[i], c_i) / SubThenMulScalarMontgomeryTwoModulus
   | inttL     -- INTTLazy of the last limb into buff
   | nttStep   -- AddScalarLazy(buff[L], ·) then NTTLazy  (DivRoundByLastModulusNTT)
@@ -320,7 +321,19 @@ def rlwePTSProg (n : Nat) (p : Pat) : Prog :=
 /-! ### ring.DivRoundByLastModulus (two limbs below the last one: fields 0,1; last limb field 2)
     `op0` = p0, `out` = p1 -/
 
+/-- the code as of /repo HEAD (since commit 64e1afc, ring/scaling.go:113-147): the centred last limb
+    is staged in the LAST ROW OF THE OUTPUT (`p1[level-1]`, evaluated last), or in `p0[level]` when
+    the evaluation is in place (`utils.Alias1D(p0[level-1], p1[level-1])`). -/
 def divRoundProg (p : Pat) : Prog :=
+  let a := p.op0; let o := p.out
+  let buff := if a = o then L a 2 else L o 1
+  [ st buff .addHalf [L a 2],
+    st (L o 0) .divStep [buff, L a 0], st (L o 0) .addC [L o 0],
+    st (L o 1) .divStep [buff, L a 1], st (L o 1) .addC [L o 1] ]
+
+/-- the code BEFORE commit 64e1afc (found by this property's reading, fixed meanwhile): it centred
+    and negated the input limbs in place. Kept for the counterexample. -/
+def divRoundProgOld (p : Pat) : Prog :=
   let a := p.op0; let o := p.out
   [ st (L a 2) .addHalf [L a 2],
     st (L a 0) .negAdd [L a 0], st (L o 0) .divStep [L a 2, L a 0],
@@ -393,6 +406,7 @@ def intFn : Fn → List Int → Int
   | .mulBig, [p, s] => p * s
   | .addHalf, [x] => x + 5
   | .negAdd, [x] => -(x + 3)
+  | .addC, [x] => x + 47
   | .divStep, [x, y] => 23 * (x + y)
   | .inttL, [x] => x + 1000
   | .nttStep, [x] => 2 * x + 9
